@@ -1,3 +1,4 @@
+import Proofs.MatchSound
 import Model.Elab
 import Model.Generated
 /-!
